@@ -295,9 +295,11 @@ func (g *fpGen) randBits() uint64 {
 func init() {
 	suites["fp"] = func(e *emitter, r *rng, thorough bool) {
 		g := &fpGen{e: e, r: r, thorough: thorough}
+		// quick: a few thousand literals (the extracted model needs ~20 ms per slow-path literal);
+		// thorough: > 300,000 cases for every op
 		rep := 1
 		if thorough {
-			rep = 8
+			rep = 6
 		}
 
 		// ---- len: every mantissa length 1..30 x every exponent -400..400
@@ -306,7 +308,7 @@ func init() {
 			for n := 1; n <= 30; n++ {
 				step := 1
 				if !thorough {
-					step = 7
+					step = 97
 				}
 				for x := -400 + g.r.intn(step); x <= 400; x += step {
 					g.lit(g.render(g.digits(n), x))
@@ -314,7 +316,11 @@ func init() {
 			}
 		}
 		// plain forms without exponent
-		for k := 0; k < 400*rep; k++ {
+		nplain := 100
+		if thorough {
+			nplain = 3200
+		}
+		for k := 0; k < nplain; k++ {
 			n := 1 + g.r.intn(40)
 			d := g.digits(n)
 			g.lit(g.sign() + pointAt(d, g.r.intn(n+30)-10))
@@ -323,7 +329,11 @@ func init() {
 		// ---- long mantissas
 		g.fam("long")
 		longs := []int{31, 32, 40, 50, 64, 100, 200, 400, 767, 768, 799, 800, 801, 802, 810, 900, 1200}
-		for k := 0; k < 6*rep; k++ {
+		nlong := 1
+		if thorough {
+			nlong = 48
+		}
+		for k := 0; k < nlong; k++ {
 			for _, n := range longs {
 				d := g.digits(n)
 				if g.r.chance(1, 4) { // long zero tail, or a lone nonzero digit past the capacity
@@ -339,9 +349,15 @@ func init() {
 		for _, x := range []string{"400000", "-400000", "10000", "-10000", "9999", "-9999", "99999", "-99999", "100000", "-100000",
 			"1000000", "-1000000", "99999999999999999999", "-99999999999999999999", "0000000000000000000001", "+0000000005", "-00000000000000000000000324",
 			"309", "308", "-323", "-324", "-325", "00", "-0", "+0", "310", "311", "-330", "-331", "-342", "-343", "347", "348", "-348", "-349"} {
-			for _, m := range []string{"0", "1", "9", "1.5", "0.0", "0.001", "123456789012345678901234567890", "4.9", "2.47", "2.48", "1.7976931348623157", "1.7976931348623159", g.digits(19), g.digits(20), g.digits(25)} {
+			ms := []string{"0", "1", "9", "1.5", "0.0", "0.001", "123456789012345678901234567890", "4.9", "2.47", "2.48", "1.7976931348623157", "1.7976931348623159", g.digits(19), g.digits(20), g.digits(25)}
+			if !thorough {
+				ms = []string{"0", "1.5", g.digits(20)}
+			}
+			for _, m := range ms {
 				g.lit(g.sign() + m + "e" + x)
-				g.lit(g.sign() + m + "E" + x)
+				if thorough {
+					g.lit(g.sign() + m + "E" + x)
+				}
 			}
 		}
 
@@ -353,9 +369,9 @@ func init() {
 		for _, b := range boundary {
 			g.halfFamily(b)
 		}
-		nh := 300
+		nh := 25
 		if thorough {
-			nh = 6000
+			nh = 5000
 		}
 		for i := 0; i < nh; i++ {
 			g.halfFamily(g.randBits())
@@ -363,9 +379,9 @@ func init() {
 
 		// ---- renderings of random floats
 		g.fam("float")
-		nf := 2000
+		nf := 100
 		if thorough {
-			nf = 40000
+			nf = 30000
 		}
 		for i := 0; i < nf; i++ {
 			f := math.Float64frombits(g.randBits())
@@ -392,12 +408,15 @@ func init() {
 		g.fam("zeros")
 		for z := 0; z <= 30; z++ {
 			for n := 1; n <= 24; n++ {
+				if !thorough && (z+n)%6 != 0 && z+n != 19 && z+n != 20 {
+					continue
+				}
 				d := g.digits(n)
 				g.lit("0." + strings.Repeat("0", z) + d)
 				g.lit(g.sign() + "0." + strings.Repeat("0", z) + d + g.expStr(g.r.intn(60)-30))
 				g.lit(d + strings.Repeat("0", z))
-				g.lit(d + strings.Repeat("0", z) + "." + strings.Repeat("0", g.r.intn(5)) + g.expStr(g.r.intn(60)-30))
-				g.lit(d + "." + strings.Repeat("0", z))
+				g.lit(d + strings.Repeat("0", z) + "." + strings.Repeat("0", 1+g.r.intn(5)) + g.expStr(g.r.intn(60)-30))
+				g.lit(d + "." + strings.Repeat("0", z+1))
 				g.lit(d + "." + strings.Repeat("0", z) + "1")
 			}
 			g.lit("0." + strings.Repeat("0", z))
@@ -407,7 +426,7 @@ func init() {
 
 		// ---- per-table-row probes
 		g.fam("rows")
-		per := 6
+		per := 2
 		if thorough {
 			per = 150
 		}
@@ -428,7 +447,7 @@ func init() {
 				}
 				neg := g.r.chance(1, 4)
 				g.e.emit("fp_el %d %d %s", m, q, b2s(neg))
-				if i < 12 && m < 10000000000000000000 {
+				if (i < 20 && thorough || i < 1) && m < 10000000000000000000 {
 					g.lit(g.sign() + strconv.FormatUint(m, 10) + "e" + strconv.Itoa(q))
 				}
 			}
@@ -436,7 +455,7 @@ func init() {
 
 		// ---- Eisel-Lemire half-way bail-outs: odd 54-bit integers (x 2^j) times 10^q, q >= 0
 		g.fam("elhard")
-		nel := 300
+		nel := 60
 		if thorough {
 			nel = 4000
 		}
@@ -462,7 +481,7 @@ func init() {
 
 		// ---- atof64exact sweep
 		g.fam("exact")
-		nx := 60
+		nx := 30
 		if thorough {
 			nx = 2400
 		}
@@ -505,18 +524,20 @@ func init() {
 		for _, b := range bad {
 			for _, j := range fpJunk {
 				g.raw(b + j)
-				g.raw(b + j + g.r.pick(fpJunk))
+				if thorough {
+					g.raw(b + j + g.r.pick(fpJunk))
+				}
 			}
 			for c := 0; c < 256; c += 1 {
-				if thorough || c%5 == 0 || (c >= 40 && c < 70) {
+				if thorough || c%32 == 0 || (c >= 43 && c < 58 && c%3 == 0) {
 					g.raw(b + string([]byte{byte(c)}))
 				}
 			}
 		}
 		// all short strings over the number alphabet
-		nb := 4
+		nb := 3
 		if thorough {
-			nb = 6
+			nb = 5
 		}
 		allStrings([]byte("-+.0e1E5"), nb, func(b []byte) { g.raw(string(b)) })
 
@@ -524,7 +545,9 @@ func init() {
 		g.fam("junk")
 		for _, v := range numberPool {
 			for c := 0; c < 256; c++ {
-				g.raw(v + string([]byte{byte(c)}))
+				if thorough || c%16 == 5 || (c >= 43 && c < 58) || c == 'e' || c == 'E' {
+					g.raw(v + string([]byte{byte(c)}))
+				}
 			}
 		}
 
@@ -532,8 +555,8 @@ func init() {
 		g.fam("huge")
 		zeros := strings.Repeat("0", 99999)
 		for _, s := range []string{
-			"0." + zeros + "1e100000",        // = 1
-			"0." + zeros + "15e100001",       // = 15
+			"0." + zeros + "1e100000",        // = 1, the code returns 0 (see suite fp_gap)
+			"0." + zeros + "15e100001",       // = 15, the code returns 0
 			"1" + zeros + "0e-100000",        // = 1
 			"0." + zeros + "1e99999",         // = 0.1 (exponent not saturated: 5 digits)
 			"1" + strings.Repeat("0", 20000), // 1e20000
@@ -541,8 +564,33 @@ func init() {
 		} {
 			h := hs([]byte(s))
 			g.e.emit("fp_parse %s", h)
-			g.e.emit("fp_strconv %s", h)
+			g.e.emit("f64 %s", h)
+		}
+		// more than 800 digits before the point: decimal.set drops them without moving dp
+		for _, s := range fpGapCap800 {
+			h := hs([]byte(s))
+			g.e.emit("fp_parse %s", h)
+			g.e.emit("fp_dec %s", h)
 			g.e.emit("f64 %s", h)
 		}
 	}
+
+	// Known disagreements between the code (and strconv) and the specification round_ne: the
+	// op fp_strconv compares strconv.ParseFloat (harness) with round_ne (model); every case of
+	// this suite is EXPECTED to differ.  Kept apart from "fp" so that "fp" stays all-agree.
+	suites["fp_gap"] = func(e *emitter, r *rng, thorough bool) {
+		zeros := strings.Repeat("0", 99999)
+		for _, s := range append([]string{"0." + zeros + "1e100000", "0." + zeros + "15e100001"}, fpGapCap800...) {
+			e.emit("fp_strconv %s", hs([]byte(s)))
+		}
+	}
+}
+
+var fpGapCap800 = []string{
+	"9007199254740993" + strings.Repeat("0", 785) + "e-785", // = 2^53+1 exactly; code: off by a factor 10
+	"9007199254740993" + strings.Repeat("0", 790) + "e-790",
+	"9007199254740993" + strings.Repeat("0", 790) + ".0e-790",
+	"9007199254740993" + strings.Repeat("0", 984) + "e-984",
+	"1" + strings.Repeat("0", 799) + "1e-800", // = 1.00..01; code: 0.1
+	"1" + strings.Repeat("0", 999) + "1e-1000",
 }
